@@ -88,11 +88,15 @@ def write_cases(cases, path, rng=None, variants=False):
                 ver = rng.choice([0x00020000, 0x00030000, 0x00040000])
             classes = CLS
             # every other font carries the pass-skip bits a compiler would compute: the engine then leaves passes out
-            m = gdl.font_model(c["prog"], classes, ADV, GATTR, c["rtl"], nlinear=nlin, nfeat=len(c.get("feats", [])), passbits=(k % 2 == 1))
+            # every third font with features has 18 wide features in front of its own (its own then sit in the tenth
+            # 32-bit chunk of a feature-value vector); the harness then also builds the values sparsely
+            pad = 18 if (c.get("feats") and k % 3 == 0) else 0
+            m = gdl.font_model(c["prog"], classes, ADV, GATTR, c["rtl"], nlinear=nlin, nfeat=len(c.get("feats", [])), passbits=(k % 2 == 1), featpad=pad)
             if k % 4 >= 2:          # half of the fonts list every success state's rules in descending order
                 for ps in m["passes"]:
                     ps["rm_rev"] = 1
             d = dict(c)
+            d["featpad"] = pad
             d["id"] = "c%d" % k
             d["font_hex"] = gfont.build_font(m, silf_version=ver).hex()
             fo.write(json.dumps(d, separators=(",", ":")) + "\n")
